@@ -230,7 +230,7 @@ def main(argv=None):
                       json.dumps(res.get('observations'))[:300], (res.get('detail') or '')[-700:])
         print(f'smoke: {len(scs)} concrete runs, {bad} with failures')
         return 0
-    qbudget = float(os.environ.get('SYMOPT_QUERY_S', '20' if tier == 'quick' else '120'))
+    qbudget = float(os.environ.get('SYMOPT_QUERY_S', '20' if tier == 'quick' else '60'))
     solvers = ('z3', 'z3-new', 'cvc5', 'cvc5py')
     results = []
     lock = threading.Lock()
@@ -288,7 +288,7 @@ def main(argv=None):
                 continue    # reachability of this path stays 'unknown' (it is then not counted as a feasible state)
             pend.append((r, p))
 
-    solve_deadline = time.time() + float(os.environ.get('SYMOPT_SOLVE_BUDGET_S', '240' if tier == 'quick' else '3600'))
+    solve_deadline = time.time() + float(os.environ.get('SYMOPT_SOLVE_BUDGET_S', '300' if tier == 'quick' else '1500'))
     found_cex = set()
 
     def do_pending(rp):
@@ -490,6 +490,8 @@ def main(argv=None):
 
     # ---- aggregate
     n_paths = n_feasible = n_infeasible = n_cut = n_exc = 0
+    cut_reasons = {}
+    unsupported = []
     counts = {}
     solver_wins = {}
     tot_solver = 0.0
@@ -509,6 +511,10 @@ def main(argv=None):
                 n_feasible += 1
             if path['status'].startswith('end:'):
                 n_cut += 1
+                kind_ = path['status'].split(':', 2)
+                cut_reasons[f"{r['hid']}: {':'.join(kind_[1:])[:160]}"] = cut_reasons.get(f"{r['hid']}: {':'.join(kind_[1:])[:160]}", 0) + 1
+                if len(kind_) > 1 and kind_[1] == 'unsupported':
+                    unsupported.append(f"{r['hid']}[{r['case_idx']}]: {':'.join(kind_[2:])[:200]}")
             if path['status'].startswith('exception'):
                 n_exc += 1
             for o in path.get('obligations', []):
@@ -560,6 +566,11 @@ def main(argv=None):
         json.dump(unconfirmed, open(os.path.join(WORK, 'replays', prop, 'unconfirmed.json'), 'w'), indent=1, default=repr)
     for u in unconfirmed[:10]:
         print(f"   unconfirmed-cex (solver model did not reproduce on the real code): {u['harness']} {u['case']} {u['obligation']} [{u['replay_status']}]")
+    if cut_reasons:
+        print('   paths ended early: ' + '; '.join(f'{k} x{v}' for k, v in sorted(cut_reasons.items())[:8]))
+    for u_ in sorted(set(unsupported)):
+        # an operation the facade does not model: the path was not executed to its end, nothing after that point was checked
+        harness_errors.append('unsupported operation in the symbolic run (path not checked): ' + u_)
     trunc = [f"{r['hid']}[{r['case_idx']}] ({len(r.get('paths', []))} paths)" for r in results if r.get('truncated')]
     if trunc:
         print(f'   TRUNCATED exploration (path cap or time budget reached; the unexplored remainder is NOT covered): ' + '; '.join(trunc[:8]))
@@ -600,7 +611,7 @@ def main(argv=None):
                 solver_time_max_s=round(max_solver, 2), functions_encoded=funcs, bounds=bounds, stubs=stubs,
                 per_harness=per_h, known_findings_hit=[k['known'].get('id') for k in known_hits],
                 query_budget_s=qbudget, harness_errors=harness_errors[:20],
-                truncated_explorations=trunc, decided_without_solver=sum(1 for r in results for pt in r.get('paths', []) for o in pt.get('obligations', []) if o.get('how') in ('simplify', 'concrete')),
+                truncated_explorations=trunc, paths_ended_early=cut_reasons, decided_without_solver=sum(1 for r in results for pt in r.get('paths', []) for o in pt.get('obligations', []) if o.get('how') in ('simplify', 'concrete')),
             ),
             assumptions=[
                 'floats are modelled as exact reals with IEEE special values (inf/nan, division by zero); rounding, overflow and cancellation are outside the claim',
